@@ -118,7 +118,7 @@ PROPS["C17"] = {
 PROPS["C04"] = {
     "jobs": [
         {"name": "grid", "pkg": "./c04", "run": "^(TestLevelGrid)$", "shards": T(4, 16), "timeout": T(600, 3600)},
-        {"name": "named", "pkg": "./c04", "run": "^(TestNamedMethods|TestLevelText|TestPanicBehaviour|TestFatalBehaviour)$"},
+        {"name": "named", "pkg": "./c04", "run": "^(TestNamedMethods|TestLevelText|TestPanicBehaviour|TestFatalBehaviour|TestLevelsThroughTriggerWriter)$"},
         {"name": "random", "pkg": "./c04", "run": "^TestRandomTriples$", "rapid": T(50000, 2000000)},
         {"name": "inert", "pkg": "./c04", "run": "^TestFilteredEventsInert$", "rapid": T(20000, 300000), "shards": T(1, 16)},
         {"name": "inert-all", "pkg": "./c04", "run": "^TestFilteredEventsInertAllMethods$", "rapid": T(15, 200), "replay": "^TestReplay$"},
@@ -136,6 +136,7 @@ PROPS["C04"] = {
 PROPS["C13"] = {
     "jobs": [
         {"name": "exhaustive", "pkg": "./c13", "run": "^(TestExhaustiveBurst|TestExhaustiveBasic)$", "shards": T(4, 16), "timeout": T(600, 3600)},
+        {"name": "long-lived", "pkg": "./c13", "run": "^TestLongLivedBasic$"},
         {"name": "compositions", "pkg": "./c13", "run": "^TestRapidCompositions$", "rapid": T(20000, 250000), "shards": T(1, 16), "replay": "^TestReplay$"},
         {"name": "logger", "pkg": "./c13", "run": "^TestRapidThroughLogger$", "rapid": T(10000, 100000), "shards": T(1, 16)},
         {"name": "concurrent", "pkg": "./c13", "run": "^TestConcurrentBasic$", "rapid": T(300, 3000), "shards": T(1, 4)},
@@ -189,6 +190,7 @@ PROPS["C19"] = {
 PROPS["C18"] = {
     "jobs": [
         {"name": "proxy", "pkg": "./c18", "run": "^(TestProxyExhaustive)$", "timeout": T(600, 3600)},
+        {"name": "proxy-huge", "pkg": "./c18", "run": "^TestProxyHuge$"},
         {"name": "proxy-rapid", "pkg": "./c18", "run": "^TestProxyRapid$", "rapid": T(10000, 300000), "shards": T(1, 16), "replay": "^TestReplay$"},
         {"name": "isolation", "pkg": "./c18", "run": "^TestIsolation$", "rapid": T(400, 6000), "shards": T(2, 16)},
         {"name": "isolation-race", "pkg": "./c18", "race": True, "run": "^TestIsolation$", "rapid": T(120, 800), "shards": T(1, 4)},
@@ -290,6 +292,11 @@ PROPS["C10"]["jobs"] = PROPS["C10"]["jobs"] + [
     {"name": "realrt", "pkg": "./c10rt", "run": "^TestRapidRealRuntime$", "rapid": T(300, 6000), "shards": T(1, 4), "replay": "^TestReplay$", "replay_match": "realrt-amd64"},
     {"name": "realrt-386", "pkg": "./c10rt", "goarch": "386", "run": "^TestRapidRealRuntime$", "rapid": T(300, 6000), "shards": T(1, 4), "replay": "^TestReplay$", "replay_match": "realrt-386"},
 ]
+_SEQWRAP = [{"name": "seqwrap", "pkg": "./c10rt", "run": "^TestSequenceWrap$", "timeout": T(600, 600)},
+            {"name": "seqwrap-386", "pkg": "./c10rt", "goarch": "386", "run": "^TestSequenceWrap$", "timeout": T(600, 600)}]
+for _p in ("C10", "C11", "C12"):
+    PROPS[_p]["jobs"] = PROPS[_p]["jobs"] + [dict(j) for j in _SEQWRAP]
+    PROPS[_p]["assumptions"] = PROPS[_p]["assumptions"] + ["seqwrap jobs: the ring's sequence numbers are preset through reflection to just below 2^8, 2^16, 2^31, 2^32 (the state after that many messages), then a backlog smaller than the ring is written and drained on the real runtime"]
 PROPS["C10"]["assumptions"] = PROPS["C10"]["assumptions"] + ["real-runtime jobs (native and GOARCH=386): only the interleavings the Go scheduler happens to produce; they add the platform dimension (32-bit alignment and int width), not schedule coverage"]
 PROPS["C11"]["jobs"] = PROPS["C11"]["jobs"] + [{"name": "fatal-path", "pkg": "./c11", "run": "^TestFatalDrains$", "timeout": T(600, 600)}]
 
